@@ -19,6 +19,10 @@ fn main() {
         eprintln!("interpretation self-check failed: {}", e);
         std::process::exit(2);
     }
+    if let Err(e) = refcodec::self_check() {
+        eprintln!("reference codec self-check failed: {}", e);
+        std::process::exit(2);
+    }
     let seed: u64 = arg(&args, "--seed").and_then(|s| s.parse().ok()).unwrap_or(1);
     let tier = arg(&args, "--tier").unwrap_or("quick").to_string();
     let inp = arg(&args, "--in").unwrap_or("").to_string();
@@ -26,6 +30,9 @@ fn main() {
     match (args[1].as_str(), args[2].as_str()) {
         ("merkle", "replay") => s_merkle::replay(&inp),
         ("merkle", "record") => s_merkle::record(seed, &tier, &out),
+        ("wire", "replay") => s_wire::replay(&inp),
+        ("wire", "record") => s_wire::record(seed, &tier, &out),
+        ("wire", "deep") => s_wire::deep(seed),
         ("selfcheck", _) => println!("{{\"rec\":\"ok\"}}"),
         (s, m) => {
             eprintln!("unknown suite/mode {} {}", s, m);
